@@ -17,7 +17,8 @@ RULE = (
     "worlds = engine mixes x generations x sprout mechanism (x hibernation in thorough); for each world a "
     "0-deviation run to learn the K consults of the global condition, then one execution per k in 0..K-1 in which the "
     "probe answers True from consult k on (kind G, one deviation = complete enumeration of 'first true at k'); shipped "
-    "conditions run undeviated under the same oracle in both drives (run() and the verbatim step loop); "
+    "conditions run undeviated under the same oracle in both drives (run() and the verbatim step loop); the scripted lifecycle worlds with "
+    "<= 2 (quick) / <= 3 (thorough) deviations over G, L and S together (first-true points after non-default sprout / stop histories); "
     "non-trivial = the first-true point fell strictly inside a metaepoch (a deme was mid-loop) while >= 2 demes were active"
 )
 ASSUMPTIONS = [
@@ -347,6 +348,12 @@ def units(tier, seed):
             seq.append(d)
         us.append({"kind": "reuse", "descs": seq})
     us.append({"kind": "minimize", "seed": seed})
+    # first-true points reached after NON-default sprout / stop histories: G combined with L and S deviations
+    from ..runlib import lifecycle_descs, split_units
+
+    for mode, desc in lifecycle_descs(tier, seed):
+        if mode == "bounded":
+            us += split_units(dict(desc, drive="run"), 2 if tier == "quick" else 3, "GLS", {"kind": "life"})
     return us
 
 
@@ -372,6 +379,10 @@ def run_unit(unit):
                 g = {"kind": "evals", "n": N} if kind == "evals" else {"kind": "fevals", "n": N, "weights": [1, 2, 3][: len(unit["desc"]["engines"])] if N % 2 else "equal"}
                 desc = dict(unit["desc"], choices="", gsc=g)
                 explore(res, ID, {"kind": "evalsweep"}, desc, [ShippedMonitor], bound=0, nontrivial_rule=_nontrivial, audit_every=64)
+    elif unit["kind"] == "life":
+        from ..runlib import run_split_unit
+
+        return run_split_unit(ID, unit, [C05Monitor], _nontrivial, drive="run")
     elif unit["kind"] == "reuse":
         for desc in unit["descs"]:
             explore(res, ID, {"kind": "reuse"}, dict(desc, choices=""), [ShippedMonitor], bound=0, nontrivial_rule=_nontrivial)
